@@ -1,7 +1,8 @@
 """C11 - JOSE header policy (crit, b64, disjointness, alg) is enforced fail-closed.
 
 M: composition of validate_jws_headers, validate_disjoint, is_disjoint formulas, validate_b64, encoder gates, recipient b64
-   agreement.   K (hooks): validate_crit decision table, JwsHeader::has.
+   agreement.   validate_crit with its loop unrolled (lists <= 2), JwsHeader::has kernels.  (The Kani harnesses of validate_crit ran out
+   of memory at 14 GB - 2.7 M symex steps through the custom-parameter BTreeMap - and were removed under rule 9.)
 """
 import re
 import z3
@@ -227,21 +228,113 @@ def run(ctx, prog):
     A.require('general-encoder/recipients-agree-on-b64', paths, r_add, replay=REPLAY)
 
 
+def crit_audit(ctx, prog):
+    """validate_crit with its loop unrolled twice (crit lists of up to 2 entries), table lookups and has_claim as callees"""
+    A = Auditor(ctx, prog)
+    f = prog.one(r'(^|::)validate_crit$')
+    paths, ex = A.paths(f, inline=r'validate_crit::\{closure', unwind=2, allow_bound=True)
+    ctx.bounds.append('validate_crit: crit lists with at most 2 entries (loop unrolled twice; %d longer-list paths cut)' % A.last_bound_hits)
+    ctx.extra['crit_paths'] = len(paths)
+    REG = {b'alg', b'jku', b'jwk', b'kid', b'x5u', b'x5c', b'x5t', b'typ', b'cty', b'crit'}
+
+    def table(t):
+        t = strip(t)
+        if isinstance(t, tuple) and t[0] == 'agg' and t[1] == 'array':
+            return {strip(x)[1] for x in t[3] if strip(x)[0] == 'const'}
+        return None
+
+    def r_crit(p):
+        if p.kind != 'return':
+            return 'panic ' + p.msg
+        if not p.is_ok():
+            return None
+        if not p.took(U, 'None'):
+            hc = [c for c in p.find_calls(r'has_claim$') if is_proj(c.args[0], 'unprotected') and strip(c.args[1]) == ('const', b'crit')]
+            if not hc or not p.took(hc[0].ret, 'false'):
+                return 'accepted although the unprotected header may carry crit'
+        cr = [c for c in p.find_calls(r'JwtHeader::crit$|::crit$') if mentions(c.args, r'^protected$')]
+        if p.took(P, 'None') or (cr and p.took(cr[0], 'None')):
+            return None
+        if not cr or not p.took(cr[0], 'Some'):
+            return 'crit of the protected header not examined'
+        vals = ('field', cr[0].ret, 0, 'Some')
+        emp = [c for c in p.find_calls(r'is_empty$') if strip(c.args[0]) == vals]
+        if not emp or not p.took(emp[0].ret, 'false'):
+            return 'empty crit list accepted'
+        nexts = [c for c in p.calls if re.search(r'Iterator>::next$', c.name) and p.took(c, 'Some')]
+        if not nexts:
+            walked = [c for c in p.calls if re.search(r'Iterator>::next$', c.name) and is_sub(('x', tuple(c.args)), cr[0].ret)]
+            return None if walked else 'accepted without walking the crit list'
+        for nx in nexts:
+            v = ('field', nx.ret, 0, 'Some')
+            cont = [c for c in p.find_calls(r'<impl \[&str\]>::contains$') if is_sub(c.args[1], v)]
+            reg = [c for c in cont if (table(c.args[0]) or set()) >= REG]
+            perm = [c for c in cont if table(c.args[0]) == {b'b64'}]
+            if not reg or not p.took(reg[0].ret, 'false'):
+                return 'crit entry not checked against the registered header parameter names'
+            if not perm or not p.took(perm[0].ret, 'true'):
+                return 'crit entry accepted without being an understood extension (only "b64")'
+            hc = [c for c in p.find_calls(r'has_claim$') if is_sub(c.args[1], v) and p.took(c.ret, 'true')]
+            if not hc:
+                return 'crit entry accepted although the named parameter may be absent from the headers'
+        return None
+    A.require('validate_crit/protected-nonempty-understood-present', paths, r_crit, replay=REPLAY)
+
+    # has(claim) for the names the policy depends on
+    f = prog.one(r'jws::header::<impl at [^>]*>::has$')
+    fields = prog.structs['JwsHeader']
+    jf = prog.structs['JwtHeader']
+    from execu import State
+    for claim, path in ((b'b64', [fields.index('b64')]), (b'alg', [fields.index('alg')]),
+                        (b'crit', [fields.index('common'), jf.index('crit')])):
+        st = State()
+        ex0 = None
+        paths, ex = A.paths(f, inline=r'^(?!.*(BTreeMap|Map<|::get$)).*$', state=st,
+                            args=[VSym(('leaf', 'self'), '&JwsHeader'), None], max_depth=8) if False else (None, None)
+        A2 = Auditor(ctx, prog)
+        import models
+        from execu import Exec
+        ex = Exec(prog, models=models.MODELLED, inline=lambda g, d: not re.search(r'BTreeMap|custom', g.name), max_depth=8)
+        st = State()
+        cref = ex.alloc_bytes(st, claim)
+        outs = ex.run(f, [VSym(('leaf', 'self'), '&JwsHeader'), cref], st)
+        t = ('deref', ('leaf', 'self'))
+        for i in path:
+            t = ('field', t, i, '')
+        d = ex.discr_var(t)
+        goals = []
+        for o in outs:
+            if o.kind != 'return' or not isinstance(o.val, VBool):
+                raise Refuse('has(%s): outcome %s' % (claim, o.kind))
+            if claim == b'crit':
+                # common parameters are also looked up among the custom parameters: present => true; no custom map => equal
+                cust = ex.discr_var(('field', ('deref', ('leaf', 'self')), fields.index('custom'), ''))
+                goals.append(('has("crit") false although crit is set', o.st.pc + [d == 1, z3.Not(o.val.e)]))
+                goals.append(('has("crit") true although neither crit nor a custom parameter is set', o.st.pc + [d == 0, cust == 0, o.val.e]))
+            else:
+                goals.append(('has("%s") differs from presence of the field' % claim.decode(), o.st.pc + [o.val.e != (d == 1)]))
+        import vc
+        v = vc.check_formulas(goals)
+        for g in ex.encoded:
+            ctx.functions.add(g)
+        if v.status == 'unsat':
+            ctx.add(Ob('JwsHeader::has("%s")=field-present' % claim.decode(), 'M', HELD, solver_s=v.secs, queries=v.queries))
+        elif v.status == 'sat':
+            from replay import run_replay
+            res = run_replay(REPLAY)
+            ctx.add(Ob('JwsHeader::has("%s")=field-present' % claim.decode(), 'M', VIOLATED if res.get('reproduced') else INCONCLUSIVE,
+                       detail='%s; native: %s' % (v.model[0], res.get('detail')), replay=REPLAY))
+        else:
+            ctx.add(Ob('JwsHeader::has("%s")=field-present' % claim.decode(), 'M', INCONCLUSIVE, detail=v.note))
+
+
+def is_sub(t, want):
+    return any(s == want for s in subterms(t))
+
+
 def is_proj(t, leaf):
     fp = field_path(strip(t))
     return bool(fp) and fp[0] == leaf
-
-
-def kani_part(ctx):
-    import kanirun
-    fn = ['jwu::validate_crit', 'JwsHeader::has', 'JwtHeader::has']
-    specs = [dict(harness='c11_crit_%s' % n, timeout_s=1500, functions=fn, replay_hooks=True,
-                  bounds='crit list = %s; presence of b64/alg on either side and of crit on the unprotected side symbolic' % n)
-             for n in (['absent', 'empty', 'b64'] if ctx.tier == 'quick' else
-                       ['absent', 'empty', 'b64', 'b64_b64', 'alg', 'exp', 'unknown'])]
-    specs.append(dict(harness='c11_twin_must_fail', timeout_s=900, must_fail=True, functions=fn))
-    res = kanirun.run_many(specs)
-    kanirun.judge(ctx, specs, res, 'c11')
 
 
 def main(ctx):
@@ -251,5 +344,4 @@ def main(ctx):
     ctx.outside += ['header parameter values', 'custom-parameter maps (is_custom_disjoint is a callee here)',
                     'verification without protected alg is decided under C01 (verify audit)']
     guarded(ctx, 'header policy audit', 'M', lambda: run(ctx, prog))
-    if os.environ.get('VERIF_SKIP_K') != '1':
-        guarded(ctx, 'validate_crit table', 'K', lambda: kani_part(ctx))
+    guarded(ctx, 'validate_crit / has', 'M', lambda: crit_audit(ctx, prog))
